@@ -98,6 +98,14 @@ impl Import {
         let path = Path::new(src);
         let attempted_path = Path::new(str_part);
         let path = path.parent().context("no parent")?.join(attempted_path);
+
+        // `m` and `./m` are the same file: the path is the identity of a module at compile
+        // time and at run time, so every spelling has to produce the same one.
+        let path: PathBuf = path
+            .components()
+            .filter(|component| !matches!(component, std::path::Component::CurDir))
+            .collect();
+
         Ok(path)
     }
 }
